@@ -13,16 +13,17 @@ EXTENDS Integers, Sequences, FiniteSets, TLC, Json, IOUtils
 
 Cases == ndJsonDeserialize(IOEnv.HOST)
 
-VARIABLES ci, h, oi, ph, e, steps, nbad
-vars == <<ci, h, oi, ph, e, steps, nbad>>
+VARIABLES ci, h, oi, ph, e, ev, steps, nbad
+vars == <<ci, h, oi, ph, e, ev, steps, nbad>>
 
 Host(P) == INSTANCE InkHost WITH Prog <- P
 Look(P) == INSTANCE InkLook WITH Prog <- P
+Out == INSTANCE InkOutput
 
 MaxSteps == 8000
 
-Init == ci = 1 /\ h = <<>> /\ oi = 1 /\ ph = "init" /\ e = <<>> /\ steps = 0 /\ nbad = 0
-NextCase == ci' = ci + 1 /\ h' = <<>> /\ oi' = 1 /\ ph' = "init" /\ e' = <<>> /\ steps' = 0
+Init == ci = 1 /\ h = <<>> /\ oi = 1 /\ ph = "init" /\ e = <<>> /\ ev = <<>> /\ steps = 0 /\ nbad = 0
+NextCase == ci' = ci + 1 /\ h' = <<>> /\ oi' = 1 /\ ph' = "init" /\ e' = <<>> /\ ev' = <<>> /\ steps' = 0
 
 Fail(rule, expected) ==
   /\ PrintT(<<"MISMATCH", Cases[ci].case, oi, rule, Cases[ci].ops[oi].op, ToJson(expected)>>)
@@ -62,33 +63,55 @@ Answer(P, op) ==
 Done(P, rec, hh, res) ==
   LET d == Diff(P, rec, hh, res) IN
   IF d # "" THEN Fail("Host." \o d, Expected(P, hh, res))
-  ELSE /\ h' = hh /\ oi' = oi + 1 /\ ph' = "op" /\ e' = <<>> /\ UNCHANGED <<ci, steps, nbad>>
+  ELSE /\ h' = hh /\ oi' = oi + 1 /\ ph' = "op" /\ e' = <<>> /\ ev' = <<>> /\ UNCHANGED <<ci, steps, nbad>>
 
 Play ==
   /\ ci <= Len(Cases)
   /\ LET c == Cases[ci]
          P == c.prog IN
      IF steps > MaxSteps THEN Fail("Host.fuel", <<>>)
-     ELSE CASE ph = "init" -> /\ h' = Host(P)!Init /\ ph' = "op" /\ UNCHANGED <<ci, oi, e, steps, nbad>>
+     ELSE CASE ph = "init" -> /\ h' = Host(P)!Init /\ ph' = "op" /\ UNCHANGED <<ci, oi, e, ev, steps, nbad>>
           [] ph = "op" ->
                IF oi > Len(c.ops) THEN NextCase /\ UNCHANGED nbad
                ELSE LET op == c.ops[oi] IN
                     IF op.op = "cont"
                     THEN IF ~Host(P)!CanContinue(h) THEN Done(P, op, h, "err")
                          ELSE /\ e' = Look(P)!BeginCont(Look(P)!Engine(h.m)) /\ ph' = "loop"
-                              /\ UNCHANGED <<ci, h, oi, steps, nbad>>
+                              /\ UNCHANGED <<ci, h, oi, ev, steps, nbad>>
+                    ELSE IF op.op = "eval_fn"
+                    THEN LET a == Host(P)!EvalBegin(h, op.name, op.args) IN
+                         IF a.res = "err" THEN Done(P, op, h, "err")
+                         ELSE /\ h' = a.h /\ ev' = [saved |-> a.saved, acc |-> <<>>] /\ ph' = "evalcont"
+                              /\ UNCHANGED <<ci, oi, e, steps, nbad>>
                     ELSE LET a == Answer(P, op) IN Done(P, op, a.h, a.res)
+          [] ph = "evalcont" ->
+               \* the host continues the function until it cannot continue, then takes the result
+               IF Host(P)!CanContinue(h)
+               THEN /\ e' = Look(P)!BeginCont(Look(P)!Engine(h.m)) /\ ph' = "evalloop" /\ UNCHANGED <<ci, h, oi, ev, steps, nbad>>
+               ELSE LET op == c.ops[oi]
+                        hh == Host(P)!EvalEnd(h, ev.saved)
+                        val == h.m.ret IN
+                    IF val # op.val THEN Fail("Host.eval:value", [val |-> val, text |-> ev.acc])
+                    ELSE IF ev.acc # op.ftext THEN Fail("Host.eval:text", [val |-> val, text |-> ev.acc])
+                    ELSE Done(P, op, hh, "ok")
+          [] ph = "evalloop" ->
+               LET r == Look(P)!SingleStep(e) IN
+               IF Look(P)!LoopOver(r)
+               THEN LET e1 == Look(P)!EndCont([m |-> r.m, snap |-> r.snap]) IN
+                    /\ h' = [h EXCEPT !.m = e1.m] /\ ev' = [ev EXCEPT !.acc = ev.acc \o Out!CurrentText(e1.m.out)]
+                    /\ ph' = "evalcont" /\ e' = <<>> /\ UNCHANGED <<ci, oi, steps, nbad>>
+               ELSE /\ e' = [m |-> r.m, snap |-> r.snap] /\ steps' = steps + 1 /\ UNCHANGED <<ci, h, oi, ph, ev, nbad>>
           [] ph = "loop" ->
                LET r == Look(P)!SingleStep(e) IN
                IF Look(P)!LoopOver(r)
                THEN LET e1 == Look(P)!EndCont([m |-> r.m, snap |-> r.snap]) IN
                     Done(P, c.ops[oi], [h EXCEPT !.m = e1.m], "ok")
-               ELSE /\ e' = [m |-> r.m, snap |-> r.snap] /\ steps' = steps + 1 /\ UNCHANGED <<ci, h, oi, ph, nbad>>
+               ELSE /\ e' = [m |-> r.m, snap |-> r.snap] /\ steps' = steps + 1 /\ UNCHANGED <<ci, h, oi, ph, ev, nbad>>
 
 Finish ==
   /\ ci = Len(Cases) + 1
   /\ PrintT(<<"CONSUMED", ci - 1, Len(Cases), nbad>>)
-  /\ ci' = ci + 1 /\ UNCHANGED <<h, oi, ph, e, steps, nbad>>
+  /\ ci' = ci + 1 /\ UNCHANGED <<h, oi, ph, e, ev, steps, nbad>>
 
 Next == Play \/ Finish
 Spec == Init /\ [][Next]_vars
